@@ -239,7 +239,25 @@ pub fn round_spec() -> BoxedStrategy<OptSpec> {
 }
 
 pub fn words(max: usize) -> BoxedStrategy<Vec<String>> {
-    prop::collection::vec((0..VOCAB.len()).prop_map(|i| VOCAB[i].to_string()), 1..=max).boxed()
+    // mostly the fixed vocabulary; one word in six is assembled from the
+    // shared token tables (multi-byte, zero-width, escape sequences, ...)
+    // and repaired into the domain: no space/CR/LF, no leading prefix char
+    let mut mix = Mix::FULL.no_endings();
+    mix.spaces = 0;
+    let generated = gen::token_text(mix, 3).prop_map(|s| {
+        let w: String = s.chars().filter(|c| !matches!(c, ' ' | '\n' | '\r')).collect();
+        let w = w.trim_start_matches(PREFIX_CHARS).to_string();
+        if w.is_empty() {
+            "w".to_string()
+        } else {
+            w
+        }
+    });
+    let word = prop_oneof![
+        5 => (0..VOCAB.len()).prop_map(|i| VOCAB[i].to_string()),
+        1 => generated,
+    ];
+    prop::collection::vec(word, 1..=max).boxed()
 }
 
 impl Property for P {
